@@ -317,6 +317,16 @@ def c06_dynamic(d0: bool, d1: bool, d2: bool, d3: bool, d4: bool, d5: bool, d6: 
       c19.cleanup_vfx()
 
 
+from vf.harness.c19 import c19_collide as c06_collide  # noqa: E402  (import re-aliasing: also a C06 matter)
+
+HARNESSES['c06_collide'] = dict(
+    fn='c06_collide',
+    anchors=['gin.config:add_import', 'gin.config:_config_str'],
+    smoke=[dict(f1=3, f2=7, f3=8, n=3)],
+    tiers={'quick': dict(split=dict(f1=list(range(10))), fixed=dict(n=3), budget_s=100),
+           'thorough': dict(split=dict(f1=list(range(10)), f2=list(range(10))), fixed=dict(n=3), budget_s=300)},
+    bounds='dynamic registration: 3 files in every order from 10 whose imports bind colliding names; the config '
+           'string must re-parse, restore the bindings on the same objects and be stable')
 HARNESSES['c06_dynamic'] = dict(
     fn='c06_dynamic',
     anchors=['gin.config:_config_str', 'gin.config:require_configurable', 'gin.config:add_import'],
